@@ -432,6 +432,9 @@ func (p *parser) parseNotExpression(depth int) ast.Child {
 			return nil
 		}
 		child = group
+	} else if item.Typ == itemOperatorNot {
+		p.next() // consume operator: "!!x" negates twice
+		child = p.parseNotExpression(depth - 1)
 	} else {
 		child = p.parsePermissionExpression()
 	}
